@@ -66,6 +66,13 @@ def run(ctx):
     rp = ctx.tlc(sdir, "RegistrarLocks.tla", "MC_RegistrarLocks_persel.cfg", timeout=600, count=False)
     if rp["inv"] != "WholeGeneration":
         raise vlib.InfraError('"per-selection" instance should violate WholeGeneration, TLC says %s' % rp["inv"])
+    rf = ctx.tlc(sdir, "RegistrarLocks.tla", "MC_RegistrarLocks_fail.cfg", timeout=600)
+    ctx.require_design_ok(rf, 'Protocol "single" with failing selections')
+    for cfg, why in (("MC_RegistrarLocks_errrlock.cfg", "error path that takes the read lock again"),
+                     ("MC_RegistrarLocks_errleak6.cfg", "failed v6 selection that returns without releasing the read lock")):
+        rb = ctx.tlc(sdir, "RegistrarLocks.tla", cfg, timeout=600, count=False)
+        if rb["inv"] not in ("Deadlock", "NoLeakAtEnd", "EventuallyAllDone", "LockBalance"):
+            raise vlib.InfraError("instance with an %s should deadlock / leak, TLC says %s" % (why, rb["inv"]))
     rl = ctx.tlc(sdir, "RegistrarLocks.tla", "MC_RegistrarLocks_leak.cfg", timeout=600, count=False)
     if rl["inv"] not in ("FailedReloadHoldsNothing", "NoLeakAtEnd", "Deadlock", "EventuallyAllDone"):
         raise vlib.InfraError('"lock-first-leak" reload instance should leak the write lock, TLC says %s' % rl["inv"])
@@ -74,7 +81,8 @@ def run(ctx):
               liveness=["EventuallyAllDone (WF per process)"],
               deadlock_check=True,
               nonvacuity='"nested-deferred" instance: Deadlock reached; "per-selection" instance: WholeGeneration violated; '
-                         '"lock-first-leak" reload instance: %s violated' % rl["inv"])
+                         '"lock-first-leak" reload instance: %s violated; failing-selection instances (error path re-locking, v6 error '
+                         'path not unlocking): deadlock' % rl["inv"])
 
     # ---------------------------------------------------------------- B0: which protocol does the code follow?
     pout = os.path.join(ctx.scratch, "probe.ndjson")
@@ -95,7 +103,7 @@ def run(ctx):
     nb = {}
     nontrivial = 0
     total = 0
-    scen = ["a", "b", "d"] if gen_protocol == "single" else ["a"]   # d: a reload that fails (malformed file) before one that succeeds   # a defective protocol is reported from the first scenario already
+    scen = ["a", "b", "d", "e", "f"] if gen_protocol == "single" else ["a"]   # e, f: requests whose selection fails (unknown generation) around reloads   # d: a reload that fails (malformed file) before one that succeeds   # a defective protocol is reported from the first scenario already
     with open(beh_all, "w") as fo:
         for sc in scen:
             g = ctx.tlc(sdir, "Gen_RegistrarLocks.tla", "Gen_RegistrarLocks_%s_%s.cfg" % (suf, sc), timeout=1500, workers=8, count=False)
